@@ -469,15 +469,24 @@ def r19_11(ctx: Ctx) -> None:
     (os.path.samestat/samefile/sameopenfile, directly or in a method of the class) - otherwise the half-written archive becomes one of
     its own members and `x` yields the input tree plus a bogus file."""
     f = shared.szf(ctx, "_writeall")
-    arms = [n for n in walk(f.node) if isinstance(n, ast.If) and isinstance(n.test, ast.Call) and attr_tail(n.test) == "is_file"]
+    def is_file_arm(t: ast.AST) -> bool:
+        alts = t.values if isinstance(t, ast.BoolOp) and isinstance(t.op, ast.Or) else [t]
+        return any(isinstance(a_, ast.Call) and attr_tail(a_) == "is_file" for a_ in alts)
+    arms = [n for n in walk(f.node) if isinstance(n, ast.If) and is_file_arm(n.test)]
     ctx.floor("R19.11", len(arms), 1, "is_file() arm of the walk")
     for arm in arms:
         writes = [c for st in arm.body for c in ast.walk(st) if isinstance(c, ast.Call) and attr_tail(c) == "write"]
         ctx.need(bool(writes), "the is_file() arm of _writeall writes nothing")
         for wcall in writes:
             ok = False
+            negs = []
             for cd, pol in q.facts_at(f, wcall):
-                if pol or not isinstance(cd, ast.Call):
+                if pol:
+                    continue
+                # `if not as_link and self._is_this_archive(path): return` : the conjunction is false at the write; the identity test is one of its conjuncts
+                negs += list(cd.values) if isinstance(cd, ast.BoolOp) and isinstance(cd.op, ast.And) else [cd]
+            for cd in negs:
+                if not isinstance(cd, ast.Call):
                     continue
                 if attr_tail(cd) in SAME_FILE:
                     ok = True
